@@ -665,6 +665,32 @@ def arith(op, *args, w=None):
                 return args[1 - i]
             if args[i].op == 'const' and args[i].args[0] == 0:
                 return zeros(w)
+        # multiplication by a replication constant (x * 0x100000001 == x | x<<32 when x fits in 32 bits):
+        # if the copies cannot overlap the product is a pure bit placement
+        for i in (0, 1):
+            c, x = args[i], args[1 - i]
+            if c.op == 'const' and x.op == 'concat' and bin(c.args[0]).count('1') <= 8 and c.args[0]:
+                hz = 0
+                for p in reversed(x.args):
+                    if p.op == 'const' and p.args[0] == 0:
+                        hz += p.w
+                    else:
+                        break
+                e = x.w - hz
+                bits = [k for k in range(w) if (c.args[0] >> k) & 1]
+                if e > 0 and all(b2 - b1 >= e for b1, b2 in zip(bits, bits[1:])):
+                    body = slice_(x, 0, e)
+                    out = []
+                    pos = 0
+                    for k in bits:
+                        if k > pos:
+                            out.append(zeros(k - pos))
+                        take = min(e, w - k)
+                        out.append(slice_(body, 0, take))
+                        pos = k + take
+                    if pos < w:
+                        out.append(zeros(w - pos))
+                    return concat(out)
     if op == 'sub' and args[0] is args[1]:
         return zeros(w)
     return mk(op, args, w)
